@@ -149,6 +149,23 @@ def _child(conn, job):
         conn.close()
 
 
+_KNOWN = None
+
+
+def _known_signatures():
+    """Signatures of the listed open findings: in screening mode they do not stop the run (they are expected on every tree)."""
+    global _KNOWN
+    if _KNOWN is None:
+        import json
+
+        path = os.path.join(os.path.dirname(os.path.dirname(os.path.abspath(__file__))), "known_findings.json")
+        try:
+            _KNOWN = {f["signature"] for f in json.load(open(path)).get("open", [])}
+        except OSError:
+            _KNOWN = set()
+    return _KNOWN
+
+
 def _run_forked(jobs, procs):
     """One fresh forked process per unit (state leaking between units - a module-level cache in the code under test or in the
     harness - cannot make a result depend on which units a worker ran before), scheduled by hand: every child reports through
@@ -188,7 +205,7 @@ def _run_forked(jobs, procs):
             conn.close()
             proc.join(30)
             results.append(r)
-            if early and r["violations"]:
+            if early and any(v["signature"] not in _known_signatures() for v in r["violations"]):
                 stop = True
         now = time.time()
         for conn, (proc, job, t0) in list(running.items()):
